@@ -218,17 +218,28 @@ def make_classes(r, tag, n_classes=6, n_enums=3):
         nf = r.randint(0, 6)
         ns = {"__annotations__": {}}
         fields = []
+        import typing
         for j in range(nf):
             fname = r.choice(["a", "b", "value", "x", "name", "items", "Data", "z9"]) + str(j)
-            ns[fname] = None
-            ns["__annotations__"][fname] = object
+            # defaults and annotations of every documented kind: a field left at / set to None must come back as None
+            default, ann = r.choice([(None, object), (None, object), (7, int), ("red", str), (1.5, float), (True, bool), (None, list), (None, dict),
+                                     (None, typing.List[int]), (None, typing.Dict[str, int]), (b"x", bytes)])
+            ns[fname] = default
+            ns["__annotations__"][fname] = ann
             fields.append(fname)
         C = type("S%s_%d" % (tag, _COUNTER[0]), (Serializable,), ns)
 
         def _make(gen, depth, _C=C, _fields=tuple(fields)):
             o = _C()
             for f in _fields:
-                setattr(o, f, gen.value(depth + 1) if depth < 5 else gen.scalar())
+                x = gen.r.random()
+                if x < 0.25:
+                    setattr(o, f, None)
+                    gen.none_fields = getattr(gen, "none_fields", 0) + 1
+                elif x < 0.35:
+                    pass                                  # left at what the constructor made of the default
+                else:
+                    setattr(o, f, gen.value(depth + 1) if depth < 5 else gen.scalar())
             return o
         C._make = staticmethod(_make)
         classes.append(C)
